@@ -16,7 +16,12 @@
 #define OUT ref_gm_out
 #define FN(x) ref_##x
 #else
+#ifdef GM_E4
+#include "e4_api.h"
+#define A(x) e4_##x
+#else
 #define A(x) x
+#endif
 #define OUT gm_out
 #define FN(x) x
 extern int rsv_cur_rid(void);
